@@ -202,6 +202,12 @@ def r14_3(repo: Repo) -> RuleResult:
     return rr
 
 
+def expand_locals_in(e, f):
+    from .common import expand_locals
+
+    return expand_locals(e, f, 2)
+
+
 def r14_4(repo: Repo) -> RuleResult:
     rr = RuleResult("R14.4", "tree: the projector zeroes exactly the mask diagonal entry and is applied on both sides", floor=1)
     f = repo.func("vectorizers/tree_token_cooccurrence.py", "sequence_tree_skip_grams")
@@ -209,13 +215,24 @@ def r14_4(repo: Repo) -> RuleResult:
     if len(blocks) != 1:
         raise AnalysisError("R14.4: nullify-mask block not found in sequence_tree_skip_grams")
     b = blocks[0]
-    eye = [n for n in b.body if isinstance(n, ast.Assign) and "scipy.sparse.eye" in norm(n.value)]
-    zero = [n for n in b.body if isinstance(n, ast.Assign) and isinstance(n.targets[0], ast.Subscript) and "mask_index" in norm(n.targets[0].slice)
-            and norm(n.value) in ("0", "0.0")]
-    both = [n for n in b.body if isinstance(n, ast.Assign) and norm(n.value).replace(" ", "") in
-            ("M.dot(global_counts).dot(M)", "(M.dot(global_counts)).dot(M)", "M@global_counts@M", "M.dot(global_counts.dot(M))")]
-    if eye and zero and both and eye[0].lineno < zero[0].lineno < both[0].lineno:
-        rr.ok(f, "mask projector", "M = I with M[mask, mask] = 0; counts = M . counts . M", b.lineno)
+    eye = [n for n in b.body if isinstance(n, ast.Assign) and isinstance(n.targets[0], ast.Name) and "scipy.sparse.eye" in norm(n.value)]
+    ok = False
+    # the operand tested `is not None` is the mask index
+    guarded_operand = norm(expand_locals_in(b.test.left, f)) if isinstance(b.test, ast.Compare) else "?"
+    if eye:
+        P = eye[0].targets[0].id
+        zero = [n for n in b.body if isinstance(n, ast.Assign) and isinstance(n.targets[0], ast.Subscript) and norm(n.targets[0].value).startswith(P + ".")
+                and guarded_operand in norm(expand_locals_in(n.targets[0].slice, f)) and norm(n.value) in ("0", "0.0")]
+        both = []
+        for n in b.body:
+            if isinstance(n, ast.Assign) and isinstance(n.targets[0], ast.Name):
+                X = n.targets[0].id
+                v = norm(n.value).replace(" ", "")
+                if v in ("%s.dot(%s).dot(%s)" % (P, X, P), "(%s.dot(%s)).dot(%s)" % (P, X, P), "%s@%s@%s" % (P, X, P), "%s.dot(%s.dot(%s))" % (P, X, P)):
+                    both.append(n)
+        ok = bool(zero and both and eye[0].lineno < zero[0].lineno < both[0].lineno)
+    if ok:
+        rr.ok(f, "mask projector", "P = I with P[mask, mask] = 0; counts = P . counts . P", b.lineno)
     else:
         rr.bad(f, "mask projector", "the identity-minus-mask projector is not built / not applied on both sides", b.lineno)
     return rr
